@@ -11,9 +11,11 @@ Reading guide.  `ev name` are the evaluated rows of equation `name` (data: AD ev
 full-system row numbers a request selects (equations in the order of setting, grids in md
 order, rows ascending); `req.sel e` says what the request asks of equation `e` (the LAST entry
 naming it counts).  Hypotheses: `sys.Inv` (holds in every reachable state: `inv_reachable`) and
-`Consistent sys ev` (the evaluated operators have the declared numbers of rows).
+`Covers sys ev` (the evaluated operators have AT LEAST the declared numbers of rows; implied by
+`Consistent`, equality).  What happens otherwise is characterised by `index_error_iff`.
 -/
 import PorepyVerif.C06.Lemmas
+import PorepyVerif.C05.Props
 
 namespace PorepyVerif.C06
 
@@ -40,6 +42,7 @@ theorem inv_reachable (grids : List Grid) (vars : List Var) (ops : List Op) :
       cases hs : removeEquation sys n with
       | error e => exact h
       | ok s => exact removeEquation_inv sys s n h hs
+    | update n gs m => exact updateEquation_inv sys n gs m h
     | assemble ev jac req vs =>
       simp only [applyOp]
       have := (assemble_eqs sys ev jac req vs).1
@@ -124,7 +127,7 @@ theorem full_is_all (sys : Sys) (ev : Nat → List Row) (vars : Option (List Var
     assembly succeeds and returns exactly the rows `rowIdx` of the full system (as rows, as
     residual entries and as Jacobian rows restricted to the selected columns). -/
 theorem assemble_is_slice (sys : Sys) (ev : Nat → List Row) (req : Request)
-    (vars : Option (List VarItem)) (hinv : sys.Inv) (hc : Consistent sys ev)
+    (vars : Option (List VarItem)) (hinv : sys.Inv) (hc : Covers sys ev)
     (blocks : Blocks) (hp : parseEquations sys req = .ok blocks)
     (cols : List Nat) (hcols : columnsOf sys vars = .ok cols) :
     ∃ out ix, assemble sys ev true req vars = ({ sys with lastIdx := ix }, .ok out) ∧
@@ -133,7 +136,7 @@ theorem assemble_is_slice (sys : Sys) (ev : Nat → List Row) (req : Request)
       out.b.map some = (rowIdx sys ev req).map (fun k => ((fullRows sys.eqs ev).map (fun r => - r.val))[k]?) ∧
       out.A.map some = (rowIdx sys ev req).map
         (fun k => ((fullRows sys.eqs ev).map (fun r => cols.map r.coef))[k]?) := by
-  obtain ⟨rows, ix, hj, hr⟩ := jac_core sys ev req hinv hc blocks hp
+  obtain ⟨rows, ix, hj, hr⟩ := jac_core sys ev req hinv (covers_not_outOfRange sys ev req hinv hc) blocks hp
   refine ⟨⟨rows, cols, []⟩, ix, assemble_jac_eq sys ev req vars blocks rows ix cols hp hj hcols, rfl, hr, ?_, ?_⟩
   · exact map_some_comp (fun r => - r.val) rows _ _ hr
   · exact map_some_comp (fun r => cols.map r.coef) rows _ _ hr
@@ -142,7 +145,7 @@ theorem assemble_is_slice (sys : Sys) (ev : Nat → List Row) (req : Request)
     system is a genuine slice `full[rowIdx]`, its row blocks come in the order the equations were
     set, and inside an equation in md order of the grids. -/
 theorem slice_rows_increasing (sys : Sys) (ev : Nat → List Row) (req : Request)
-    (hinv : sys.Inv) (hc : Consistent sys ev) :
+    (hinv : sys.Inv) (hc : Covers sys ev) :
     (rowIdx sys ev req).Pairwise (· < ·) ∧
       ∀ k ∈ rowIdx sys ev req, k < (fullRows sys.eqs ev).length := by
   obtain ⟨h1, h2⟩ := sliceIdx_sorted ev req.sel sys.eqs 0
@@ -213,11 +216,11 @@ theorem residual_only_eq (sys sys' : Sys) (ev : Nat → List Row) (req : Request
 /-- … hence it is the slice `rowIdx` of the residual of the full system; it succeeds whenever the
     request parses (the variable list is not looked at). -/
 theorem residual_only_is_slice (sys : Sys) (ev : Nat → List Row) (req : Request)
-    (vars : Option (List VarItem)) (hinv : sys.Inv) (hc : Consistent sys ev)
+    (vars : Option (List VarItem)) (hinv : sys.Inv) (hc : Covers sys ev)
     (blocks : Blocks) (hp : parseEquations sys req = .ok blocks) :
     ∃ res, assemble sys ev false req vars = (sys, .ok ⟨[], [], res⟩) ∧
       res.map some = (rowIdx sys ev req).map (fun k => ((fullRows sys.eqs ev).map (fun r => - r.val))[k]?) := by
-  obtain ⟨rows, ix, hj, hr⟩ := jac_core sys ev req hinv hc blocks hp
+  obtain ⟨rows, ix, hj, hr⟩ := jac_core sys ev req hinv (covers_not_outOfRange sys ev req hinv hc) blocks hp
   have hres : resLoop ev blocks = .ok (rows.map (·.val)) := by
     rw [resLoop_eq ev blocks 0, hj]
     rfl
@@ -285,6 +288,251 @@ theorem grid_order_irrelevant (sys : Sys) (k : Key) (gs1 gs2 : List GridId)
       simp only
       rw [all_congr _ gs1 gs2 h, localRows_congr e.image gs1 gs2 h]
 
+/-! ### operators shorter than declared: the IndexError path -/
+
+/-- `Consistent` (what the harness generates, and what `equations_per_grid_entity` promises)
+    implies `Covers`. -/
+theorem consistent_implies_covers (sys : Sys) (ev : Nat → List Row) (h : Consistent sys ev) :
+    Covers sys ev := consistent_covers sys ev h
+
+/-- When the evaluated operators do NOT have the declared sizes: for a request that parses and a
+    valid variable list, Jacobian assembly raises — and then it is an IndexError — exactly when
+    some equation is requested with a grid restriction whose local rows reach beyond the
+    evaluated operator (`OutOfRange`); unrestricted requests never raise.  In every other case
+    the result is still the slice `rowIdx` of the full system (offsets = actual operator lengths).
+    On the error the reported indices are those of the blocks before the failing one. -/
+theorem index_error_iff (sys : Sys) (ev : Nat → List Row) (req : Request)
+    (vars : Option (List VarItem)) (hinv : sys.Inv)
+    (blocks : Blocks) (hp : parseEquations sys req = .ok blocks)
+    (cols : List Nat) (hcols : columnsOf sys vars = .ok cols) :
+    (OutOfRange sys ev req →
+        assemble sys ev true req vars =
+          ({ sys with lastIdx := idxPrefix ev blocks 0 }, .error .index)) ∧
+      (¬ OutOfRange sys ev req →
+        ∃ out ix, assemble sys ev true req vars = ({ sys with lastIdx := ix }, .ok out) ∧
+          out.rows.map some = (rowIdx sys ev req).map (fun k => (fullRows sys.eqs ev)[k]?)) := by
+  refine ⟨?_, ?_⟩
+  · rintro ⟨e, he, idx, hsel, i, hi, hle⟩
+    have hb := parse_blocks sys hinv req blocks hp
+    cases hj : jacLoop ev blocks 0 with
+    | error err =>
+      obtain ⟨herr, _⟩ := jacLoop_error ev blocks 0 err hj
+      subst herr
+      simp [assemble, hp, hj]
+    | ok q =>
+      exfalso
+      have hm : (e.name, some idx) ∈ blocks := by
+        rw [hb]
+        exact (mem_blocksOf req.sel sys.eqs e.name (some idx)).mpr ⟨e, he, hsel, rfl⟩
+      have := jacLoop_ok_bounds ev blocks 0 q hj e.name idx hm i hi
+      omega
+  · intro hno
+    obtain ⟨rows, ix, hj, hr⟩ := jac_core sys ev req hinv hno blocks hp
+    exact ⟨⟨rows, cols, []⟩, ix, assemble_jac_eq sys ev req vars blocks rows ix cols hp hj hcols, hr⟩
+
+/-- The same characterisation for residual-only assembly. -/
+theorem index_error_residual (sys : Sys) (ev : Nat → List Row) (req : Request)
+    (vars : Option (List VarItem)) (hinv : sys.Inv)
+    (blocks : Blocks) (hp : parseEquations sys req = .ok blocks) :
+    (OutOfRange sys ev req ↔ assemble sys ev false req vars = (sys, .error .index)) := by
+  have hb := parse_blocks sys hinv req blocks hp
+  constructor
+  · rintro ⟨e, he, idx, hsel, i, hi, hle⟩
+    cases hj : jacLoop ev blocks 0 with
+    | error err =>
+      obtain ⟨herr, _⟩ := jacLoop_error ev blocks 0 err hj
+      subst herr
+      have : resLoop ev blocks = .error .index := by rw [resLoop_eq ev blocks 0, hj]; rfl
+      simp [assemble, hp, this]
+    | ok q =>
+      exfalso
+      have hm : (e.name, some idx) ∈ blocks := by
+        rw [hb]
+        exact (mem_blocksOf req.sel sys.eqs e.name (some idx)).mpr ⟨e, he, hsel, rfl⟩
+      have := jacLoop_ok_bounds ev blocks 0 q hj e.name idx hm i hi
+      omega
+  · intro h
+    apply Classical.byContradiction
+    intro hno
+    obtain ⟨rows, ix, hj, _⟩ := jac_core sys ev req hinv hno blocks hp
+    have hres : resLoop ev blocks = .ok (rows.map (·.val)) := by
+      rw [resLoop_eq ev blocks 0, hj]; rfl
+    rw [assemble_res_eq sys ev req vars blocks _ hp hres] at h
+    cases h
+
+/-! ### remove_equation and update_equation -/
+
+/-- `remove_equation` deletes the equation and keeps the others in their order; afterwards every
+    request that does not name it assembles exactly as before (same result, same reported
+    indices, same errors), and the FULL system is the old system restricted to the other
+    equations: its rows are deleted everywhere and nothing else moves. -/
+theorem remove_equation_spec (sys sys' : Sys) (name : Nat) (hinv : sys.Inv)
+    (h : removeEquation sys name = .ok sys') :
+    sys'.eqs = sys.eqs.filter (fun e => e.name ≠ name) ∧ sys'.hasEq name = false ∧
+    (∀ ev jac items vars, name ∉ (Request.list items).entries.map (·.1) →
+        (assemble sys' ev jac (.list items) vars).2 = (assemble sys ev jac (.list items) vars).2) ∧
+    (∀ ev jac es vars, name ∉ (Request.dict es).entries.map (·.1) →
+        (assemble sys' ev jac (.dict es) vars).2 = (assemble sys ev jac (.dict es) vars).2) ∧
+    (∀ ev jac vars, (assemble sys' ev jac .all vars).2 =
+        (assemble sys ev jac (.list (sys'.eqs.map (fun e => Item.key (.str e.name)))) vars).2) := by
+  obtain ⟨rfl, _⟩ := removeEquation_eqs sys sys' name h
+  refine ⟨rfl, hasEq_removed sys name, ?_, ?_, ?_⟩
+  · intro ev jac items vars hn
+    exact (assemble_congr sys { sys with eqs := sys.eqs.filter (fun e => e.name ≠ name) } ev jac
+      (.list items) vars (parse_list_filter sys _ name rfl items hn) rfl rfl).1
+  · intro ev jac es vars hn
+    exact (assemble_congr sys { sys with eqs := sys.eqs.filter (fun e => e.name ≠ name) } ev jac
+      (.dict es) vars (parse_dict_filter sys _ name rfl es hn) rfl rfl).1
+  · intro ev jac vars
+    have hp1 : parseEquations { sys with eqs := sys.eqs.filter (fun e => e.name ≠ name) } .all =
+        .ok ((sys.eqs.filter (fun e => e.name ≠ name)).map (fun e => (e.name, none))) := rfl
+    have hp2 := parse_rest sys hinv name
+    -- both sides run the same loops on the same blocks
+    have hc : columnsOf { sys with eqs := sys.eqs.filter (fun e => e.name ≠ name) } vars = columnsOf sys vars :=
+      columnsOf_congr sys _ vars rfl rfl
+    simp only [assemble, hp1, hp2, hc]
+    cases jac with
+    | false =>
+      simp only [Bool.false_eq_true, if_false]
+      cases resLoop ev _ <;> rfl
+    | true =>
+      simp only [if_true]
+      cases jacLoop ev _ 0 with
+      | error e => rfl
+      | ok q =>
+        obtain ⟨rows, ix⟩ := q
+        simp only
+        cases columnsOf sys vars <;> rfl
+
+/-- `update_equation` = remove + set: on success the equation is the LAST one (it moves to the
+    end of the row order, it is NOT replaced in place), with the image composition `set_equation`
+    builds for the given grids / multiplicities (defaults: the grids of the old image, the
+    multiplicities stored when it was set). -/
+theorem update_equation_spec (sys sys' : Sys) (name : Nat) (grids : Option (List GridId))
+    (per : Option PerEntity) (h : updateEquation sys name grids per = (sys', none)) :
+    sys.hasEq name = true ∧
+    ∃ g p, (grids = some g ∨ (grids = none ∧ ∃ e, findEq sys.eqs name = some e ∧ g = e.image.map (·.1))) ∧
+      (per = some p ∨ (per = none ∧ lookup name sys.sizeInfo = some p)) ∧
+      setEquation { sys with eqs := sys.eqs.filter (fun e => e.name ≠ name) } name g p = .ok sys' ∧
+      ∃ img, sys'.eqs = sys.eqs.filter (fun e => e.name ≠ name) ++ [⟨name, img⟩] := by
+  unfold updateEquation at h
+  simp only at h
+  split at h
+  · cases h
+  · rename_i g hg
+    split at h
+    · cases h
+    · rename_i p hp
+      split at h
+      · cases h
+      · rename_i s1 hr
+        obtain ⟨rfl, hhas⟩ := removeEquation_eqs sys s1 name hr
+        split at h
+        · cases h
+        · rename_i s2 hs
+          cases h
+          refine ⟨hhas, g, p, ?_, ?_, hs, ?_⟩
+          · cases grids with
+            | some g0 => left; simpa using hg
+            | none =>
+              right
+              refine ⟨rfl, ?_⟩
+              cases hf : findEq sys.eqs name with
+              | none => simp [hf] at hg
+              | some e => exact ⟨e, rfl, by simpa [hf] using hg.symm⟩
+          · cases per with
+            | some p0 => left; simpa using hp
+            | none => right; exact ⟨rfl, by simpa using hp⟩
+          · obtain ⟨img, himg, _⟩ := set_equation_image _ _ name g p hs
+            exact ⟨img, himg⟩
+
+/-- Failure of `update_equation`: either nothing happened (KeyError: a default is missing;
+    ValueError: no such equation), or — partial effect — the equation has been REMOVED and the
+    re-setting failed with AssertionError (unknown or repeated grid). -/
+theorem update_equation_failure (sys sys' : Sys) (name : Nat) (grids : Option (List GridId))
+    (per : Option PerEntity) (err : Err) (h : updateEquation sys name grids per = (sys', some err)) :
+    (sys' = sys ∧ (err = .key ∨ (err = .value ∧ sys.hasEq name = false))) ∨
+    (err = .assertion ∧ sys.hasEq name = true ∧
+      sys' = { sys with eqs := sys.eqs.filter (fun e => e.name ≠ name) }) := by
+  unfold updateEquation at h
+  simp only at h
+  split at h
+  · cases h; exact Or.inl ⟨rfl, Or.inl rfl⟩
+  · rename_i g hg
+    split at h
+    · cases h; exact Or.inl ⟨rfl, Or.inl rfl⟩
+    · rename_i p hp
+      split at h
+      · rename_i e hr
+        cases h
+        left
+        refine ⟨rfl, Or.inr ?_⟩
+        unfold removeEquation at hr
+        split at hr
+        · cases hr
+        · rename_i hh
+          cases hr
+          exact ⟨rfl, by simpa using hh⟩
+      · rename_i s1 hr
+        obtain ⟨rfl, hhas⟩ := removeEquation_eqs sys s1 name hr
+        split at h
+        · rename_i e hs
+          cases h
+          right
+          refine ⟨?_, hhas, rfl⟩
+          unfold setEquation at hs
+          rw [hasEq_removed sys name] at hs
+          split at hs
+          · rename_i hff; cases hff
+          · split at hs
+            · cases hs
+            · simp only at hs
+              split at hs
+              · cases hs
+              · cases hs; rfl
+        · cases h
+
+/-! ### the variable table comes from C05 -/
+
+/-- `VarsOk` is not an extra assumption: it follows from the layout invariant proved in C05 for
+    every state of its model, given that the md-grid lists each grid once (C24). -/
+theorem varsOk_of_c05 (e : C05.Env) (hn : e.order.Nodup) (s : C05.State) (h : C05.Inv e s) :
+    (ofC05 e s).VarsOk := by
+  refine ⟨?_, ?_, ?_⟩
+  · have : (ofC05 e s).vars.map (·.id) = s.vars.map (·.id) := by simp [ofC05, List.map_map, Function.comp_def]
+    rw [this]
+    exact h.idsLt.imp (fun hlt => Nat.ne_of_lt hlt)
+  · have : (ofC05 e s).grids.map (·.id) = e.order := by
+      simp [ofC05, C05.Env.order, List.map_map, Function.comp_def]
+    rw [this]
+    exact hn
+  · intro v hv
+    have hg : (ofC05 e s).grids.map (·.id) = e.order := by
+      simp [ofC05, C05.Env.order, List.map_map, Function.comp_def]
+    rw [hg]
+    simp only [ofC05, List.mem_map] at hv
+    obtain ⟨w, hw, rfl⟩ := hv
+    have := h.kindOk w hw
+    simp only [C05.Env.order, List.mem_append]
+    cases hsub : w.sub with
+    | true => rw [hsub] at this; exact Or.inl this
+    | false => rw [hsub] at this; exact Or.inr this
+
+/-- Every variable history of the C05 model followed by every equation history of this model gives
+    a system whose `variables=None` columns are all dofs in order. -/
+theorem columns_all_reachable (e : C05.Env) (hn : e.order.Nodup) (vops : List C05.Op) (ops : List Op) :
+    let sys := run (ofC05 e (C05.run e C05.init vops)) ops
+    sys.VarsOk ∧ columnsOf sys none = .ok (List.range (numDofs sys)) := by
+  intro sys
+  have h0 := varsOk_of_c05 e hn _ (C05.inv_reachable e hn vops)
+  have hgv := run_gv ops (ofC05 e (C05.run e C05.init vops))
+  have hok : sys.VarsOk := by
+    unfold Sys.VarsOk
+    show ((run _ ops).vars.map (·.id)).Nodup ∧ ((run _ ops).grids.map (·.id)).Nodup ∧ _
+    rw [hgv.1, hgv.2]
+    exact h0
+  exact ⟨hok, columns_all_aux sys hok⟩
+
 /-! ### non-vacuity: a concrete system
 
 Grids (md order): subdomain 0 (2 cells, 7 faces, 6 nodes), subdomain 1 (3 cells), interface 5
@@ -345,5 +593,28 @@ example : errOf (assemble exSys exEv true (.dict [(.str 1, [5])]) none).2 = some
 
 example : errOf (assemble exSys exEv false (.list [.key .bad]) none).2 = some .type := by
   decide +kernel
+
+/-- update with the defaults: equation 2 moves to the END; with a foreign grid the equation is lost -/
+example : ((updateEquation exSys 2 none none).1.eqs.map (·.name), (updateEquation exSys 2 none none).2) =
+    ([3, 1, 2], none) := by decide +kernel
+
+example : ((updateEquation exSys 2 (some [5, 77]) none).1.eqs.map (·.name),
+    (updateEquation exSys 2 (some [5, 77]) none).2) = ([3, 1], some .assertion) := by decide +kernel
+
+example : (updateEquation exSys 9 none none).2 = some .key := by decide +kernel
+
+/-- an operator of equation 1 with only 3 of its 5 declared rows: restricting to grid 0 (rows 0,1)
+    works, restricting to grid 1 (rows 2,3,4) raises IndexError, the unrestricted request works -/
+def exShort (n : Nat) : List Row :=
+  (List.range (if n = 1 then 3 else if n = 2 then 2 else 0)).map (fun i => ⟨(10 * n + i : Nat), []⟩)
+
+example : (errOf (assemble exSys exShort true (.dict [(.str 1, [0])]) none).2,
+    errOf (assemble exSys exShort true (.dict [(.str 2, [5]), (.str 1, [1])]) none).2,
+    (assemble exSys exShort true (.dict [(.str 2, [5]), (.str 1, [1])]) none).1.lastIdx,
+    errOf (assemble exSys exShort false (.list [.key (.op 1)]) none).2) =
+    (none, some .index, [(2, [0, 1])], none) := by decide +kernel
+
+example : OutOfRange exSys exShort (.dict [(.str 1, [1])]) :=
+  ⟨⟨1, [(0, [0, 1]), (1, [2, 3, 4])]⟩, by decide +kernel, [2, 3, 4], by decide +kernel, 3, by decide, by decide +kernel⟩
 
 end PorepyVerif.C06
